@@ -119,6 +119,54 @@ theorem mfa_index (ω : S) (n1 n2 : Nat) (hω : ω ^ (n1 * n2) = 1) (x : Nat →
 
 end ring
 
+/-! ### the truncated twiddled column transform -/
+
+theorem fft_radix2_twiddle_succ (d w ws r c rs : Nat) (xs : List Int) : fft_radix2_twiddle (d + 1) w ws r c rs xs =
+    fft_radix2_twiddle d (2 * w) ws r c (2 * rs) (fsts (2 ^ (d + 1)) fun i => bfly (el xs i) (el xs (2 ^ (d + 1) + i)) i w) ++
+    fft_radix2_twiddle d (2 * w) ws (r + rs) c (2 * rs)
+      (snds (2 ^ (d + 1)) fun i => bfly (el xs i) (el xs (2 ^ (d + 1) + i)) i w) := by
+  simp only [fft_radix2_twiddle]
+
+theorem le_length_fft_trunc1_twiddle (d w ws r c rs trunc : Nat) (xs : List Int) (ht : TruncOk d trunc) :
+    trunc ≤ (fft_trunc1_twiddle d w ws r c rs trunc xs).length := by
+  induction d generalizing w r rs trunc xs with
+  | zero => rw [truncOk_zero ht]; simp [fft_trunc1_twiddle, length_fft_radix2_twiddle]
+  | succ d ih =>
+    simp only [fft_trunc1_twiddle]
+    split_ifs with h1 h2
+    · rw [length_fft_radix2_twiddle, h1]; rw [pow_succ]; omega
+    · rw [List.length_append]
+      have := ih (2 * w) r (2 * rs) trunc ((List.range (2 ^ (d + 1))).map fun i => el xs i + el xs (i + 2 ^ (d + 1)))
+        (truncOk_low ht h2)
+      omega
+    · rw [List.length_append, length_fft_radix2_twiddle]
+      have := ih (2 * w) (r + rs) (2 * rs) (trunc - 2 ^ (d + 1))
+        (snds (2 ^ (d + 1)) fun i => bfly (el xs i) (el xs (2 ^ (d + 1) + i)) i w) (truncOk_high ht h2)
+      omega
+
+/-- mpir_fft_trunc1_twiddle: the first `trunc` outputs are exactly those of mpir_fft_radix2_twiddle -/
+theorem fft_trunc1_twiddle_eq (d w ws r c rs trunc : Nat) (xs : List Int) (ht : TruncOk d trunc) (k : Nat)
+    (hk : k < trunc) :
+    el (fft_trunc1_twiddle d w ws r c rs trunc xs) k = el (fft_radix2_twiddle d w ws r c rs xs) k := by
+  induction d generalizing w r rs trunc xs k with
+  | zero => rw [truncOk_zero ht]; simp [fft_trunc1_twiddle]
+  | succ d ih =>
+    simp only [fft_trunc1_twiddle]
+    split_ifs with h1 h2
+    · rfl
+    · have hl := le_length_fft_trunc1_twiddle d (2 * w) ws r c (2 * rs) trunc
+        ((List.range (2 ^ (d + 1))).map fun i => el xs i + el xs (i + 2 ^ (d + 1))) (truncOk_low ht h2)
+      rw [el_append_left _ _ _ (by omega), ih _ _ _ _ _ (truncOk_low ht h2) k hk, sums_eq_fsts _ w,
+        fft_radix2_twiddle_succ, el_append_left _ _ _ (by rw [length_fft_radix2_twiddle]; omega)]
+    · rw [fft_radix2_twiddle_succ]
+      by_cases hkn : k < 2 ^ (d + 1)
+      · rw [el_append_left _ _ _ (by rw [length_fft_radix2_twiddle]; exact hkn),
+          el_append_left _ _ _ (by rw [length_fft_radix2_twiddle]; exact hkn)]
+      · have ek : k = 2 ^ (d + 1) + (k - 2 ^ (d + 1)) := by omega
+        rw [ek, el_append_right' _ _ _ _ (length_fft_radix2_twiddle _ _ _ _ _ _ _),
+          el_append_right' _ _ _ _ (length_fft_radix2_twiddle _ _ _ _ _ _ _)]
+        exact ih _ _ _ _ _ (truncOk_high ht h2) _ (by omega)
+
 /-! ### the column pass and the row pass of the matrix Fourier transform, on the model's own pieces -/
 
 theorem length_revPerm (D : Nat) (c : List Int) : (revPerm D c).length = c.length := by simp [revPerm]
